@@ -203,6 +203,29 @@ class Fn:
                 return self.join(sep, n.args[0], env, n)
             if isinstance(f, ast.Attribute) and f.attr == "load" and getattr(f.value, "id", "") == "json":
                 return Table("json")
+            if isinstance(f, ast.Attribute) and f.attr == "format" and not n.args and all(k.arg is not None for k in n.keywords):
+                # "...{name}...".format(name=E): the same as the f-string with E in the hole (template: a literal, e.g. a module constant)
+                import string
+                tpl = self.ev(f.value, env)
+                if not (isinstance(tpl, S) and all(p[0] == "lit" for p in tpl.p)):
+                    return U("format() of a template that is not a literal")
+                kws = {k.arg: k.value for k in n.keywords}
+                out = S()
+                try:
+                    parts = list(string.Formatter().parse("".join(p[1] for p in tpl.p)))
+                except ValueError:
+                    return U("format() template")
+                for text, field, spec, conv in parts:
+                    out = out + lit(text)
+                    if field is None:
+                        continue
+                    if field not in kws or spec or conv:
+                        return U("format() field {%s}" % field)
+                    v = self.ev(kws[field], env)
+                    if isinstance(v, (U, MapV, ListV, Table)):
+                        return U("format() argument: " + (v.why if isinstance(v, U) else type(v).__name__))
+                    out = out + self.to_s(v, n)
+                return out
             return U("call %s" % ast.unparse(f)[:40])
         if isinstance(n, ast.Dict):
             fixed = []
@@ -331,6 +354,11 @@ class Fn:
             if isinstance(st, ast.Return) and st.value is not None:
                 self.scan_runs(st.value, conds, env)
             return []
+        if isinstance(st, ast.Assign) and isinstance(st.value, ast.IfExp) and len(st.targets) == 1 and isinstance(st.targets[0], ast.Name):
+            # x = A if C else B   ==   if C: x = A  else: x = B   (the branches become variants, as with the statement form)
+            mk = lambda v: ast.copy_location(ast.Assign(targets=st.targets, value=v), st)
+            return self.step_if(ast.copy_location(ast.If(test=st.value.test, body=[mk(st.value.body)], orelse=[mk(st.value.orelse)]), st),
+                                conds, env)
         if isinstance(st, ast.Assign):
             self.scan_runs(st.value, conds, env)
             if len(st.targets) == 1 and isinstance(st.targets[0], ast.Name):
@@ -690,6 +718,14 @@ def extract():
         n_run_text = sum(1 for c in ast.walk(tree) if isinstance(c, ast.Call) and isinstance(c.func, ast.Attribute)
                          and c.func.attr == "run")
         found = 0
+        # module-level NAME = "literal" (implicit / explicit concatenation of literals): statement templates hoisted out of the methods
+        consts = {}
+        C0 = Fn(rel, "<module>", ast.FunctionDef(name="<module>"), src)
+        for st in tree.body:
+            if isinstance(st, ast.Assign) and len(st.targets) == 1 and isinstance(st.targets[0], ast.Name):
+                v = C0.ev(st.value, {})
+                if isinstance(v, S) and all(p[0] == "lit" for p in v.p):
+                    consts[st.targets[0].id] = v
         for cls in tree.body:
             if not isinstance(cls, ast.ClassDef):
                 if isinstance(cls, (ast.FunctionDef,)) and ".run(" in (ast.get_source_segment(src, cls) or ""):
@@ -702,7 +738,7 @@ def extract():
                 if ".run(" not in seg:
                     continue
                 F = Fn(rel, cls.name, fn, src)
-                env = {}
+                env = dict(consts)
                 a = fn.args
                 if a.vararg or a.kwarg:
                     raise ExtractionError("%s.%s: *args/**kwargs" % (cls.name, fn.name))
@@ -796,8 +832,50 @@ def vocab():
     return {"classes": classes, "rels": rels, "props": props}
 
 
+def _op_texts(op):
+    return ("[" + ",\n            ".join(lean_piece(p) for p in op["tpl"]) + "]",
+            lean_list(["t!" + lean_str(s) for s in op["supplied"]]),
+            lean_list([".%s t!%s" % (g, lean_str(m)) for g, m in op["guards"]]))
+
+
+def align_variants(ops):
+    """A variant's number is only a name: it follows the order in which the branches appear in the source.  When a call site has the
+    same SET of (template, supplied parameters, guards) as in the Generated file of the unchanged tree (gen/baseline/Cypher.lean)
+    but the branches come in another order (`A if c else B` for `if not c: B else: A`), the baseline's numbering is kept, so that
+    the per-site theorems and the harness keep talking about the same variant."""
+    import re
+    from core import BASELINE_DIR
+    try:
+        with open(os.path.join(BASELINE_DIR, "Cypher.lean")) as f:
+            txt = f.read()
+    except OSError:
+        return ops
+    base = {}
+    for m in re.finditer(r'key := (t!"(?:[^"\\]|\\.)*"), variant := (\d+), line := \d+,\n    tpl := (.*?),\n    supplied := (.*?),\n    guards := (.*?) \}\n',
+                         txt, re.S):
+        base.setdefault(m.group(1), {})[int(m.group(2))] = (m.group(3), m.group(4), m.group(5))
+    by_key = {}
+    for op in ops:
+        by_key.setdefault(op["key"], []).append(op)
+    for key, group in by_key.items():
+        b = base.get("t!" + lean_str(key))
+        if not b or len(b) != len(group) or len(group) < 2:
+            continue
+        want = [b[i] for i in sorted(b)]
+        cur = [_op_texts(op) for op in group]
+        if cur == want or sorted(cur) != sorted(want) or len(set(cur)) != len(cur):
+            continue
+        for op, t in zip(group, cur):
+            op["variant"] = want.index(t)
+    order = {}
+    for i, op in enumerate(ops):
+        order.setdefault(op["key"], i)
+    return sorted(ops, key=lambda op: (order[op["key"]], op["variant"]))
+
+
 def generate():
     ops, report = extract()
+    ops = align_variants(ops)
     voc = vocab()
     body = "open FimVerif.Cypher\n\n"
     for k in ("classes", "rels", "props"):
@@ -824,7 +902,7 @@ def generate():
 def table():
     """the extracted operations as Python data (used by the harness to enumerate operations; not a second model)"""
     ops, _ = extract()
-    return ops
+    return align_variants(ops)
 
 
 if __name__ == "__main__":
